@@ -1,4 +1,5 @@
 import CollectionsC.Proofs.HashTable
+import CollectionsC.Proofs.HashTableGrowth
 /-! # C20 (hash-table part) — capacity invariants and doubling growth
 
 Statements and closing proofs only.  The threshold `(size_t)(capacity * load_factor)` is the
@@ -54,6 +55,30 @@ theorem removal_keeps_capacity (c : HCfg) (t : HashTable) (k : Key) (m : Mem) (h
   obtain ⟨_, _, _, _, _, _, _, p8, _⟩ := HashTable.remove_spec c t k m h (by omega)
   obtain ⟨_, _, _, r4, _⟩ := HashTable.removeAll_spec c t m h (by omega)
   exact ⟨p8, r4⟩
+
+/-- **only O(log n) reallocations.**  Inserting any list of pairs into a table of capacity `c₀`
+(statuses ignored, refusals allowed) performs exactly `j` bucket-array allocations, where the final
+capacity is `c₀ · 2^j`; all other allocations are one per new entry.  For a load factor of at least
+0.25 (`x / 4 ≤ thr x`) the final capacity is below `8 · (size + 1)` whenever a reallocation
+happened, hence `j ≤ log2 (8 · (size + 1))` with `size ≤ initial size + n`. -/
+theorem reallocations_logarithmic (c : HCfg) (hthr : ∀ x, x / 4 ≤ c.thr x) (t : HashTable)
+    (kvs : List (Key × Nat)) (m : Mem) (h : t.Inv c) :
+    ∃ j, (HashTable.addMany c t kvs m).1.capacity = t.capacity * 2 ^ j ∧
+      (HashTable.addMany c t kvs m).2.nalloc = m.nalloc + j + ((HashTable.addMany c t kvs m).1.size - t.size) ∧
+      (HashTable.addMany c t kvs m).1.size ≤ t.size + kvs.length ∧
+      j ≤ Nat.log2 (8 * ((HashTable.addMany c t kvs m).1.size + 1)) := by
+  obtain ⟨j, h1, h2, h3, h4, h5⟩ := HashTable.addMany_count c hthr t kvs m h
+  refine ⟨j, h1, h2, h4, ?_⟩
+  rcases h5 with h5 | h5
+  · omega
+  · have hc : 0 < t.capacity := cap_pos t h.1
+    have h2j : 2 ^ j ≤ t.capacity * 2 ^ j := Nat.le_mul_of_pos_left _ hc
+    have hX : 2 ^ j < 8 * ((HashTable.addMany c t kvs m).1.size + 1) := by omega
+    apply Classical.byContradiction
+    intro hn
+    have hlt : Nat.log2 (8 * ((HashTable.addMany c t kvs m).1.size + 1)) < j := by omega
+    have := (Nat.log2_lt (by omega)).mp hlt
+    omega
 
 /-- non-vacuity: capacity 1, load factor 0.25 (`thr 1 = thr 2 = 0`, `thr 4 = 1`): the first insertion
 doubles twice -/
